@@ -66,6 +66,19 @@ FIRST_MISS = {
  "C09-11": "instructions whose bytes continue in an adjacent area (any mask)",
  "C09-12": "stores made by the built-in syscall handlers into non-writable memory (pipe read into code / read-only data)",
  "C10-12": "ELF loads in the C10 stream (exact area extents, allocations right behind each)",
+ "C11-11": "code that ends exactly at 2^64 / 2^32 in C11 (added from the report, before the first attempt - as for all of round 6b)",
+ "C12-11": "hooks that stop and then try to register",
+ "C12-12": "hooked instructions that fail by themselves after a before-hook stopped the run",
+ "C13-11": "break argument equal to the heap base exactly",
+ "C14-11": "foreign descriptors with NULL / unmapped / overlong buffers",
+ "C15-12": "entry point carrying the only symbol",
+ "C16-11": "TLS and other symbol types",
+ "C17-11": "the most recently created area high up in the address space",
+ "C18-11": "render reports each renderer's Ok/Err; traced jumps overwritten before rendering",
+ "C18-12": "tens of thousands of unmatched returns (nomodel + generator expectation)",
+ "C19-11": "the same deep histories under the crash oracle",
+ "C20-11": "written registers observed through the written view after reads-only set-up (a pure output that is not written shows)",
+ "C20-12": "RSP no longer written unless the instruction reads it",
  "C13-9": "small areas in the middle of a page where the heap search starts (added before the first attempt)",
  "C13-10": "handler registration in two calls with overlapping lists (added before the first attempt)",
  "C17-9": "all stack-search candidates below 2^32 occupied (added before the first attempt)",
